@@ -167,6 +167,20 @@ func Parse(e *liquid.Engine, src string, path string, line int) (t *liquid.Templ
 	return
 }
 
+// ParseCache calls ParseTemplateAndCache at the API boundary.
+func ParseCache(e *liquid.Engine, src string, path string, line int) (t *liquid.Template, r Res) {
+	defer catch(&r)
+	t, err := e.ParseTemplateAndCache([]byte(src), path, line)
+	r.setErr(err)
+	if r.IsErr && t != nil {
+		r.Shape = "template returned together with an error"
+	}
+	if !r.IsErr && r.Shape == "" && t == nil {
+		r.Shape = "nil template without error"
+	}
+	return
+}
+
 // ParsePlain calls ParseTemplate (no location).
 func ParsePlain(e *liquid.Engine, src string) (t *liquid.Template, r Res) {
 	defer catch(&r)
